@@ -3,7 +3,7 @@ import time
 
 import numpy as np
 
-from .. import api, gen, refmodel, resultcheck
+from .. import api, gen, refmodel, resultcheck, planwork
 
 ID = "C11"
 LEVEL = "exploration"
@@ -25,7 +25,7 @@ MIN_NONTRIVIAL = {"quick": 150, "thorough": 2500}
 JOBS = {"quick": 10, "thorough": 16}
 
 
-def shards(tier, seed):
+def _base_shards(tier, seed):
     if tier == "quick":
         n_sh, n, budget, nmax = 6, 120, 45, 8000
         cells = [("auto", None, 400), ("cross", 0.2, 400), ("cross", 0.7, 400)]
@@ -118,6 +118,10 @@ def mc_cell(rec, params):
 
 
 def run_shard(params, rec):
+    if params.get("kind") == "repo-tests":
+        # thorough tier: the repository's own tests as a workload, every result they produce
+        # checked by this property's result-level monitor (speckit_verif.pytest_plugin)
+        return planwork.run_repo_tests(ID, rec, tests=planwork.RESULT_TESTS)
     if params["kind"] == "mc":
         return mc_cell(rec, params)
     t0 = time.time()
@@ -134,3 +138,11 @@ def replay(case, rec):
                       "seed": case["seed"][0], "shard": case["seed"][1]})
     else:
         analysis_case(rec, case["seed"], case.get("nmax", 8000))
+
+
+def shards(tier, seed):
+    out = list(_base_shards(tier, seed))
+    if tier == "thorough":
+        out.append({"name": "repo-tests", "threads": 4, "timeout": 2400,
+                    "params": {"kind": "repo-tests"}})
+    return out
